@@ -12,6 +12,7 @@ import (
 	"encoding/json"
 	"flag"
 	"fmt"
+	"hash/fnv"
 	"math"
 	"math/big"
 	"math/rand"
@@ -149,6 +150,8 @@ type dCase struct {
 	Seed int64    `json:"seed"`
 	// include mode
 	Calls [][2]string `json:"calls"`
+	// Final: after the calls the document is marshaled and the pairs of the output are looked at
+	Final bool `json:"final"`
 }
 
 // ---- concretisation of ids: tokens stay ASCII across the TLC boundary ----
@@ -314,6 +317,18 @@ func (w *docWorld) res(r dRes) jsonapi.Resource {
 		}
 		setField(res, f, d, val, w.km, w.tb)
 	}
+	// some resources come with meta information of their own, with a member that holds nothing
+	// (which resources is a matter of the content: type and id)
+	if mh, ok := res.(jsonapi.MetaHolder); ok {
+		h := fnv.New32a()
+		h.Write([]byte(r.Type + "/" + r.ID))
+		switch h.Sum32() % 5 {
+		case 1:
+			mh.SetMeta(jsonapi.Meta{"k": r.ID, "n": nil})
+		case 2:
+			mh.SetMeta(jsonapi.Meta{"n": nil})
+		}
+	}
 	return res
 }
 
@@ -391,6 +406,13 @@ func (w *docWorld) build(d dDoc) (*jsonapi.Document, *jsonapi.URL, []jsonapi.Res
 				wc.Add(r)
 			}
 			doc.Data = wc
+		case "resval":
+			// a Resources value, not a pointer to one: none of the kinds of primary data the library knows
+			col := jsonapi.Resources{}
+			for _, r := range prim {
+				col = append(col, r)
+			}
+			doc.Data = col
 		default:
 			col := &jsonapi.Resources{}
 			for _, r := range prim {
@@ -765,6 +787,12 @@ func snapshot(live []jsonapi.Resource, url *jsonapi.URL) string {
 			}
 			fmt.Fprintf(&b, "%s=%#v;", k, v)
 		}
+		if mh, ok := r.(jsonapi.MetaHolder); ok {
+			m := mh.Meta()
+			for _, k := range sortedKeys(m) {
+				fmt.Fprintf(&b, "meta.%s=%#v;", k, m[k])
+			}
+		}
 	}
 	for _, t := range sortedKeys(url.Params.Fields) {
 		fmt.Fprintf(&b, "F[%s]=%v;", t, sortedIDs(url.Params.Fields[t]))
@@ -955,6 +983,27 @@ func runDocCase(c dCase) dEvent {
 				if err == nil && c.Var.Busy && bytes.Equal(payload, kept) {
 					payload = again // the result that is looked at is one that differs, if any does
 				}
+			}
+		}
+		// the same Document value serves another answer in between (an included resource is the primary
+		// data, the primary data is included) and is then given its content back: the same content again
+		if len(doc.Included) > 0 && !c.Var.Busy {
+			d0, i0 := doc.Data, doc.Included
+			others := append([]jsonapi.Resource{}, i0[1:]...)
+			switch x := d0.(type) {
+			case jsonapi.Resource:
+				others = append(others, x)
+			case jsonapi.Collection:
+				for k := 0; k < x.Len(); k++ {
+					others = append(others, x.At(k))
+				}
+			}
+			doc.Data, doc.Included = i0[0], others
+			_, _ = catch(func() { _, _ = jsonapi.MarshalDocument(doc, url) })
+			doc.Data, doc.Included = d0, i0
+			again, err := jsonapi.MarshalDocument(doc, url)
+			if err != nil || !bytes.Equal(again, kept) {
+				ev.Det.AllSame = false
 			}
 		}
 		ev.Det.FrameOK = snapshot(live, url)+snapshotDoc(doc) == before
@@ -1242,6 +1291,31 @@ func docMain(args []string) {
 		b, err := os.ReadFile(*replay)
 		must(err)
 		must(json.Unmarshal(b, &rf))
+		// the cases run just before in the same process: what a defect keeps between calls (a cache
+		// by name, a pool) is only there after them
+		var pre struct {
+			Prelude []json.RawMessage `json:"prelude"`
+		}
+		must(json.Unmarshal(b, &pre))
+		for _, raw := range pre.Prelude {
+			var pc dCase
+			if json.Unmarshal(raw, &pc) != nil {
+				continue
+			}
+			_, _ = catch(func() {
+				switch pc.Mode {
+				case "dupname":
+					var dc dupCase
+					if json.Unmarshal(raw, &dc) == nil {
+						runDupCase(dc)
+					}
+				case "include":
+					runIncludeCase(pc)
+				default:
+					runDocCase(pc)
+				}
+			})
+		}
 		if rf.Case.Mode == "dupname" {
 			var dr struct {
 				Case dupCase `json:"case"`
@@ -1424,8 +1498,17 @@ func docMain(args []string) {
 	}
 	for i := 0; i < *walks; i++ {
 		c := randIncludeCase(rng, *seed)
+		c.Final = true
 		for _, ev := range runIncludeCase(c) {
 			stt.Calls++
+			if ev.Ev == "included-doc" {
+				stt.class("included-doc:" + ev.Ret)
+				if ev.Foreign {
+					stt.class("included-doc:foreign-data")
+				}
+				w.Emit(ev, c)
+				continue
+			}
 			stt.class("include:" + ev.Coll)
 			if len(ev.Post.Included) > len(ev.Pre.Included) {
 				stt.class("include:added")
